@@ -34,7 +34,7 @@ ASSUMPTIONS = [
 TIERS = {"quick": {"examples": 6400, "budget_s": 100}, "thorough": {"examples": 60000, "budget_s": 1500}}
 EPS = 1e-9
 
-CFG = G.GenCfg(kinds={"mark": 3, "wait": 4, "block": 6, "watch": 1, "pause": 1, "hold": 1, "quick": 1, "blank": 1},
+CFG = G.GenCfg(kinds={"mark": 3, "wait": 4, "block": 6, "watch": 1, "pause": 1, "hold": 1, "unpause": 1, "unhold": 1, "quick": 1, "blank": 1},
                max_depth=3, max_top=5, max_children=3, thresholds=False, base_first="s",
                pause_durs=(0.1, 0.2, 0.3, 0.5, 0.5, 1.0, 1.5, 2.0, None))
 
